@@ -57,6 +57,38 @@ def replay_file(path, repo):
         print(json.dumps(tr.summary(), indent=1))
         print('reproduced' if okc else 'NOT reproduced')
         return 1 if okc else 0
+    if kind == 'sysq':
+        import shutil, tempfile
+        from .. import replay as rp
+        from ..native import build_native, run_native
+        case = d['case']
+        case['deps'] = {int(k): v for k, v in case['deps'].items()}
+        binpath, _ = build_native(repo)
+        dd = tempfile.mkdtemp(prefix='zxq-', dir=os.environ.get('VERIF_SCRATCH', '/var/tmp'))
+        try:
+            args = rp.write_project(case, dd)
+            sched, order = rp.schedule_for_q(case, dd, d.get('cap', 1))
+            tr = rp.NativeTrace(run_native(binpath, dd, args, sched, timeout=60), case)
+        finally:
+            shutil.rmtree(dd, ignore_errors=True)
+        print(json.dumps(tr.summary(), indent=1))
+        from . import proto
+        okc = proto.confirm_native(d.get('confirm') or 'deadlock', case, tr)
+        print('reproduced' if okc else 'NOT reproduced')
+        return 1 if okc else 0
+    if kind == 'local':
+        from .. import local_replay as lr
+        native, sched, events = lr.run_trace(d['trace'], repo)
+        viol = lr.concrete_monitor(d['trace'], native)
+        print(json.dumps({'events': events, 'native_violations': sorted(viol)}, indent=1, default=str))
+        okc = bool(viol)
+        print('reproduced' if okc else 'NOT reproduced')
+        return 1 if okc else 0
+    if kind in ('incr', 'c14', 'clean', 'listing', 'watch', 'maintail', 'resolve'):
+        # these files record the concrete inputs and what the real binary did with them in the run that wrote them
+        print(json.dumps({k: d[k] for k in d if k != 'obligation'}, indent=1, default=str)[:4000])
+        print('recorded native confirmation: %s (re-run the check to regenerate against the current tree)' % d.get('confirmed'))
+        return 1 if d.get('confirmed') else 0
     if kind == 'script':
         import subprocess
         r = subprocess.run(d['cmd'], shell=True, cwd=VERIF)
